@@ -62,6 +62,17 @@ CHECKS["C01"] = dict(
     design_ref="DESIGN.md section 2, C01",
 )
 
+CHECKS["C10"] = dict(
+    technique="TLA+ state machine Session (symbolic commit-then-open coin tossing, one Byzantine party) model-checked by TLC + TLC trace validation of real session setups, sub-contexts and zero shares",
+    text="Session.tla models the four rounds over symbolic values with injective hashes; TLC checks agreement on the session identifier, symmetry and pairwise distinctness of seeds, that a "
+         "cheater is caught by every party that can see the mismatch and that only the cheater is blamed, for every assignment of contributions. Real setups (rounds and runner API) with 2-5 "
+         "parties and dense/sparse/large identifiers are validated by TLC: same identifier and transcript for all, symmetric and pairwise-distinct seeds, nothing shared across sessions, every "
+         "sub-context of every sub-quorum consistent among its members and fresh, and the pseudorandom zero shares recomputed exactly on the toy group (pair elements equal at both ends, sign by "
+         "identifier order, sum = identity). Altered commitments/openings/contributions are covered by the session rows of the deviation matrix (ProtoCore).",
+    note="Trusted: TLC, the spec, token interning (SHA-256 of the bytes), the toy group for zero shares.",
+    design_ref="DESIGN.md section 2, C10",
+)
+
 NOT_APPLICABLE = {
     "C13": "byte-level encode/decode fidelity of 256-381-bit curve elements: no state/transition structure and operands TLC cannot represent; a TLA+ specification would decide nothing (DESIGN.md section 3)",
 }
